@@ -386,6 +386,31 @@ def rule_global(ctx):
                     if parts[:2] in (["np", "random"], ["numpy", "random"]) and len(parts) == 3:
                         if parts[2] not in NP_SEEDED_CTORS:
                             hits.append((n, d))
+            # (seed C17_9) third-party random generators (networkx `random_*`, scipy / numpy style helpers) fall back
+            # to the process-wide generator when no seed is handed to them
+            tp = {k for k, v in m.imports.items() if v[0] and v[0].split(".")[0] in ("networkx", "scipy", "igraph", "numpy")}
+            tp |= {k for k, v in ctx.p.local_imports(f).items() if v[0] and v[0].split(".")[0] in ("networkx", "scipy", "igraph", "numpy")}
+            for n in walk_local(f.node):
+                if not isinstance(n, ast.Call):
+                    continue
+                d = dotted(n.func)
+                if not d or d.split(".")[0] not in tp:
+                    continue
+                last = d.split(".")[-1]
+                if not ("random" in last or last in ("shuffle", "sample", "choice", "permutation")):
+                    continue
+                if d.split(".")[:2] in (["np", "random"], ["numpy", "random"]):
+                    continue   # handled above
+                seeded = [k for k in n.keywords if k.arg in ("seed", "random_state", "rng")]
+                sp = seed_param(f)
+                ok_seed = False
+                for k in seeded:
+                    names = {x.id for x in ast.walk(k.value) if isinstance(x, ast.Name)}
+                    if not (isinstance(k.value, ast.Constant) and k.value.value is None) and (
+                            sp is None or sp in names or names & set(ctx.r.local_assignments(f))):
+                        ok_seed = True
+                if not ok_seed:
+                    hits.append((n, f"{d}(...) without a seed"))
             key = ctx.key(f, "C17-GLOBAL")
             if f.name == "get_rng":
                 r.ok(key, f.loc, "the sanctioned route to the global generator (seed=None)")
@@ -651,7 +676,10 @@ def _consumer(func, node, loop=None):
 def rule_hashord(ctx):
     r = RuleResult("C17-HASHORD", "no label set is iterated into an order-sensitive consumer", 4)
     undecided = []
-    for path in scope_paths(ctx):
+    # every module, also in the quick tier (seed C17_10 sat in hypergraph.py, which the seeded pathfinders use)
+    all_paths = [p_ for p_ in ctx.p.modules
+                 if not p_.startswith("cotengra/plot") and not p_.startswith("cotengra/schematic")]
+    for path in all_paths:
         m = ctx.p.module(path)
         for f in m.all_funcs:
             for n in walk_local(f.node):
